@@ -71,7 +71,7 @@ def parseLink : String → Option Link
 
 def parseForged : String → Option Forged
   | "strreply" => some .str | "int3reply" => some (.int 3) | "intm1reply" => some (.int (-1))
-  | "nilreply" => some .nil | _ => none
+  | "nilreply" => some .nil | "int1reply" => some (.int 1) | "int2reply" => some (.int 2) | _ => none
 
 def Forged.describe : Forged → String
   | .str => "a string" | .int v => s!"the integer {v}" | .nil => "a nil reply"
@@ -287,7 +287,7 @@ def runPeriod (r : Report) (s : Section) : Report := Id.run do
         let model := s!"{res.1.toNat} {res.2.str} {dumpKey d.sys.store "cnt" k}"
         let implCmp := joinSp (l.obs.take 3)
         if model ≠ implCmp then r := r.mismatch s.idx l.idx model implCmp
-        r := r.addCover (match f with | .str => "p-take-reply-string" | .int _ => "p-take-reply-integer-no-code" | .nil => "p-take-reply-nil")
+        r := r.addCover (match f with | .str => "p-take-reply-string" | .nil => "p-take-reply-nil" | .int v => if v = 1 || v = 2 then "p-take-reply-forged-code-believed" else "p-take-reply-integer-no-code")
         let obsCode := (l.obs.headD "?")
         let obsErr := (l.obs.drop 1).headD "?"
         if !(f = .int 1 || f = .int 2 || f = .int 0) && (obsCode ≠ "0" || obsErr = "nil") then
@@ -793,7 +793,7 @@ def runToken (r : Report) (s : Section) : Report := Id.run do
             d := { d with slack := fun j => if j = i then d.slack i + 1 else d.slack j }
           let model := s!"{if mOk then "ok" else "no"} a=1 s={instFlags (d.sys.insts i)} {tokDump c d.sys.store}"
           if model ≠ impl then r := r.mismatch s.idx l.idx model impl
-          r := r.addCover (match f with | .str => "t-allow-reply-string-goes-local" | .int _ => "t-allow-reply-integer-not-1" | .nil => "t-allow-reply-nil")
+          r := r.addCover (match f with | .str => "t-allow-reply-string-goes-local" | .nil => "t-allow-reply-nil" | .int v => if v = 1 then "t-allow-reply-forged-1-believed" else "t-allow-reply-integer-not-1")
           if n > burst then r := r.addCover "t-forged-n-over-burst"
           if route = .store then
             if implOk = some true && f ≠ .int 1 then
